@@ -6,6 +6,8 @@ package rules
 // an unexported helper does not change what they see.
 
 import (
+	"go/token"
+
 	"golang.org/x/tools/go/ssa"
 )
 
@@ -16,7 +18,10 @@ type fnode struct {
 	Succs  []*fnode
 	If     *ssa.If     // the segment ends with this branch: Succs[0] is the true edge, Succs[1] the false edge
 	Ret    *ssa.Return // the segment ends with a return of the root function
-	bind   map[ssa.Value]ssa.Value
+	// the segment ends with a return of an inlined callee: the call it returns to and the values it returns
+	RetOf   *ssa.Call
+	RetVals []ssa.Value
+	bind    map[ssa.Value]ssa.Value
 }
 
 // Root maps a value of the node's function to the root function's value it stands for.
@@ -38,8 +43,8 @@ type flatGraph struct {
 
 func flatten(c *Ctx, root *ssa.Function, follow func(*ssa.Function) bool, maxDepth int) *flatGraph {
 	g := &flatGraph{}
-	var inline func(fn *ssa.Function, bind map[ssa.Value]ssa.Value, depth int, stack map[*ssa.Function]bool, after *fnode) *fnode
-	inline = func(fn *ssa.Function, bind map[ssa.Value]ssa.Value, depth int, stack map[*ssa.Function]bool, after *fnode) *fnode {
+	var inline func(fn *ssa.Function, bind map[ssa.Value]ssa.Value, depth int, stack map[*ssa.Function]bool, after *fnode, site *ssa.Call) *fnode
+	inline = func(fn *ssa.Function, bind map[ssa.Value]ssa.Value, depth int, stack map[*ssa.Function]bool, after *fnode, site *ssa.Call) *fnode {
 		first := map[*ssa.BasicBlock]*fnode{}
 		last := map[*ssa.BasicBlock]*fnode{}
 		for _, b := range fn.Blocks {
@@ -69,7 +74,7 @@ func flatten(c *Ctx, root *ssa.Function, follow func(*ssa.Function) bool, maxDep
 					}
 				}
 				stack[cl] = true
-				entry := inline(cl, nb, depth+1, stack, rest)
+				entry := inline(cl, nb, depth+1, stack, rest, call)
 				delete(stack, cl)
 				cur.Succs = []*fnode{entry}
 				cur = rest
@@ -85,6 +90,7 @@ func flatten(c *Ctx, root *ssa.Function, follow func(*ssa.Function) bool, maxDep
 			case *ssa.Return:
 				if after != nil {
 					n.Succs = []*fnode{after}
+					n.RetOf, n.RetVals = site, t.Results
 				} else {
 					n.Ret = t
 				}
@@ -96,7 +102,7 @@ func flatten(c *Ctx, root *ssa.Function, follow func(*ssa.Function) bool, maxDep
 		}
 		return first[fn.Blocks[0]]
 	}
-	g.Entry = inline(root, map[ssa.Value]ssa.Value{}, 0, map[*ssa.Function]bool{root: true}, nil)
+	g.Entry = inline(root, map[ssa.Value]ssa.Value{}, 0, map[*ssa.Function]bool{root: true}, nil, nil)
 	return g
 }
 
@@ -166,4 +172,121 @@ func urlHelpers(c *Ctx) func(*ssa.Function) bool {
 		}
 		return false
 	}
+}
+
+// ---- path enumeration on the flattened graph (decision DAGs spread over helpers) ----
+
+type flatCond struct {
+	V   ssa.Value // resolved to a value of the root function where possible
+	Pol bool
+}
+
+type flatPath struct {
+	Conds []flatCond
+	Nodes []*fnode
+	Ret   *ssa.Return
+	// resolve maps a value met on this path to what it stands for: parameters of inlined helpers to the arguments,
+	// phis to the edge the path came in by, calls of inlined helpers to what the helper returned on this path
+	phi  map[*ssa.Phi]ssa.Value
+	call map[*ssa.Call]ssa.Value
+}
+
+func (p *flatPath) Resolve(n *fnode, v ssa.Value) ssa.Value {
+	for i := 0; i < 16; i++ {
+		v = n.Root(v)
+		switch x := v.(type) {
+		case *ssa.Phi:
+			if r, ok := p.phi[x]; ok {
+				v = r
+				continue
+			}
+		case *ssa.Call:
+			if r, ok := p.call[x]; ok {
+				v = r
+				continue
+			}
+		case *ssa.UnOp:
+			if x.Op == token.NOT {
+				return v
+			}
+		}
+		break
+	}
+	return v
+}
+
+// enumFlatPaths lists the paths from the entry to the returns of the root function; a branch whose condition resolves
+// to a boolean constant on the path is followed one way only. ok=false if there is a loop or too many paths.
+func enumFlatPaths(g *flatGraph, limit int) ([]*flatPath, bool) {
+	var out []*flatPath
+	ok := true
+	var rec func(n, from *fnode, cur *flatPath, onPath map[*fnode]bool)
+	rec = func(n, from *fnode, cur *flatPath, onPath map[*fnode]bool) {
+		if !ok {
+			return
+		}
+		if onPath[n] {
+			ok = false
+			return
+		}
+		onPath[n] = true
+		defer delete(onPath, n)
+		np := &flatPath{Conds: cur.Conds, Nodes: append(append([]*fnode(nil), cur.Nodes...), n), phi: map[*ssa.Phi]ssa.Value{}, call: map[*ssa.Call]ssa.Value{}}
+		for k, v := range cur.phi {
+			np.phi[k] = v
+		}
+		for k, v := range cur.call {
+			np.call[k] = v
+		}
+		// phis of a block entered from another block of the same function instance
+		if from != nil && from.Block != nil && n.Block != nil && from.Fn == n.Fn && len(n.Instrs) > 0 {
+			if _, isPhi := n.Instrs[0].(*ssa.Phi); isPhi {
+				for _, ins := range n.Instrs {
+					ph, ok := ins.(*ssa.Phi)
+					if !ok {
+						break
+					}
+					for i, pr := range n.Block.Preds {
+						if pr == from.Block {
+							np.phi[ph] = cur.Resolve(from, ph.Edges[i])
+						}
+					}
+				}
+			}
+		}
+		if n.RetOf != nil && len(n.RetVals) == 1 {
+			np.call[n.RetOf] = np.Resolve(n, n.RetVals[0])
+		}
+		if n.Ret != nil {
+			np.Ret = n.Ret
+			out = append(out, np)
+			if len(out) > limit {
+				ok = false
+			}
+			return
+		}
+		if n.If != nil {
+			cv := np.Resolve(n, n.If.Cond)
+			if k, isK := constBool(cv); isK {
+				if k {
+					rec(n.Succs[0], n, np, onPath)
+				} else {
+					rec(n.Succs[1], n, np, onPath)
+				}
+				return
+			}
+			t := *np
+			t.Conds = append(append([]flatCond(nil), np.Conds...), flatCond{cv, true})
+			rec(n.Succs[0], n, &t, onPath)
+			f := *np
+			f.Conds = append(append([]flatCond(nil), np.Conds...), flatCond{cv, false})
+			rec(n.Succs[1], n, &f, onPath)
+			return
+		}
+		for _, sc := range n.Succs {
+			rec(sc, n, np, onPath)
+		}
+	}
+	rec(g.Entry, nil, &flatPath{phi: map[*ssa.Phi]ssa.Value{}, call: map[*ssa.Call]ssa.Value{}}, map[*fnode]bool{})
+	return out, ok
 }
